@@ -84,7 +84,7 @@ func (s *Space[C]) Indexed(r *rep.Run, n uint64, mk func(i uint64) C) {
 	enum.Indexed(r, s.Name, n, mk, s.Check)
 }
 func (s *Space[C]) Each(r *rep.Run, gen func(yield func(C))) { enum.Each(r, s.Name, gen, s.Check) }
-func (s *Space[C]) Slice(r *rep.Run, cs []C)                  { enum.Slice(r, s.Name, cs, s.Check) }
+func (s *Space[C]) Slice(r *rep.Run, cs []C)                 { enum.Slice(r, s.Name, cs, s.Check) }
 
 // Replay re-executes a violation file's case without the explorer.
 func Replay(doc map[string]json.RawMessage) error {
